@@ -1,5 +1,6 @@
 //! C02 / C15: rate limiter. script = [wtype (0 fixed,1 sliding log,2 sliding counter), limit, period,
 //! timeout, n + 1000*mode, (op a b)*]
+//! limit >= 10^15 stands for usize::MAX (the model just sees a huge number)
 //! durations (period, timeout): z < 10^15: z ms; 10^15 <= z < 2*10^15: Duration::MAX; z >= 2*10^15: Duration::from_secs(z - 2*10^15)
 //! mode: 0 every caller calls through its own fresh clone of the layered service; 1 all callers call through ONE long-lived
 //!   service value (poll_ready + call again and again); 2 clone chain (caller k uses a clone of the value caller k-1 used);
@@ -28,7 +29,7 @@ fn run(s: &[i128]) -> Vec<i128> {
         let sh = inner.0.clone();
         let layer = RateLimiterLayer::builder()
             .window_type(match zn(s, 0) { 0 => WindowType::Fixed, 1 => WindowType::SlidingLog, _ => WindowType::SlidingCounter })
-            .limit_for_period(zn(s, 1).max(0) as usize)
+            .limit_for_period(if zn(s, 1) >= 1_000_000_000_000_000 { usize::MAX } else { zn(s, 1).max(0) as usize })
             .refresh_period(dur_of(zn(s, 2)))
             .timeout_duration(dur_of(zn(s, 3)))
             .build();
